@@ -270,6 +270,7 @@ def run_world(subject, world, log=None):
     stats["shared_generators"] = sorted(k for k, v in policy.by_source.items() if len(set(v)) > 1)
     stats["access_order"] = [tuple(v) for k, v in sorted(policy.by_source.items()) if len(set(v)) > 1]
     stats["deviations"] = list(sch.deviations)
+    stats["interleaving"] = tuple(sch.order)
     log.add("outputs", out["samples"], out["counts"])
     return out, stats, log
 
@@ -440,7 +441,7 @@ def judge_world(sc):
     if stats["native_calls"]:
         counters["hc_values"] = {str(world["native"]["hc"]): 1}
         counters["team_sizes"] = {str(world["native"].get("team", 0)): 1}
-    rec = {"digest": log.digest(), "counters": counters, "nontrivial": bool([f for f in feats if f not in ("process-global-rng-state", "os-urandom-stream")]), "sets": {"shared_access_orders": [repr(o) for o in stats["access_order"]]}, "facts": facts}
+    rec = {"digest": log.digest(), "counters": counters, "nontrivial": bool([f for f in feats if f not in ("process-global-rng-state", "os-urandom-stream")]), "sets": {"shared_access_orders": [repr(o) for o in stats["access_order"]], "interleavings": [repr((len(sc["subject"]["program"]), stats["tasks"], stats["interleaving"]))] if stats["switches"] else []}, "facts": facts}
     bad = outputs_equal(ref, out)
     if bad is None:
         rec["status"] = "pass"
@@ -716,7 +717,7 @@ def final_signature(sc, rec):
     return "C11/same-seed/differs:" + ("+".join(feats) if feats else "quiet")
 
 
-def shrink(sc, rec, max_runs=40):
+def shrink(sc, rec, max_runs=70):
     """Ablate the world until only the perturbations needed for the disagreement remain."""
     if sc["kind"] != "world" or rec.get("sig") != "C11/same-seed/differs":
         return sc, rec
@@ -766,6 +767,25 @@ def shrink(sc, rec, max_runs=40):
                 if still(cand):
                     cur = cand
                     break
+    # 3b. replay the schedule as an explicit trace of its recorded deviations and drop them one at a time
+    if cur["world"].get("dask") and cur["world"]["schedule"].get("kind") in ("walk", "pct"):
+        try:
+            _o, st, _l = run_world(cur["subject"], cur["world"])
+            devs = [list(d) for d in st["deviations"]]
+        except Exception:  # noqa: BLE001
+            devs = None
+        if devs is not None and len(devs) <= 60:
+            cand = copy.deepcopy(cur)
+            cand["world"]["schedule"] = {"kind": "trace", "deviations": devs}
+            if still(cand):
+                cur = cand
+                i = len(devs) - 1
+                while i >= 0 and runs[0] < max_runs:
+                    cand = copy.deepcopy(cur)
+                    del cand["world"]["schedule"]["deviations"][i]
+                    if still(cand):
+                        cur = cand
+                    i -= 1
     # 4. fewer shots
     for s in (1, 2, 4):
         if cur["subject"]["shots"] > s:
